@@ -14,7 +14,7 @@ func init() { register("C10", "other", checkC10) }
 
 func checkC10(w *World, r *Result) {
 	r.Explanation = "Decides structural necessary conditions on analysis/enums.go: AGR-C10m a member is appended once per scope name under exactly the three filters (is a constant, its type is named, no opt-out comment), keyed by the constant's own named type, carrying the constant and its own comment; PTH-C10a every store of true into IsIota is dominated by the integer-kind test, by the per-member 'not an int64 or negative => return' test, by the gap test against max+1, by a duplicate rejection, and is preceded on its path by the sort of the members by value; the sort helper swaps every parallel slice and compares the values; AGR-C10b the population the iota test counts (exported constants) is the population positional consumers enumerate (Dart names/values, randdata choices skip exactly the unexported ones). Does not decide: the trailing-comment lookup against the syntax tree, same-name enums in two packages, exactness of values (go/constant's job)."
-	r.Rules = []string{"AGR-C10m membership filters", "AGR-C10k comment lookup", "AGR-C10r import filter", "AGR-C10p import prefix", "PTH-C10a iota flag dominance", "AGR-C10s sort helper", "SORT-PAR", "MEMO-KEY", "AGR-C10b population agreement", "STATE-PKG", "MUT-AN", "POS-ORDER"}
+	r.Rules = []string{"AGR-C10m membership filters", "AGR-C10k comment lookup", "AGR-C10r import filter", "AGR-C10p import prefix", "PTH-C10a iota flag dominance", "AGR-C10s sort helper", "SORT-PAR", "MEMO-KEY", "AGR-C10b population agreement", "STATE-PKG", "MUT-AN", "POS-ORDER", "SHIFT-SKIP", "AGR-C10t"}
 	posOrderRule(w, r, func(rel string) bool { return rel == "analysis" })
 	mutAnRule(w, r, nil)
 	statePkgRule(w, r, func(rel string) bool { return rel == "analysis" })
